@@ -24,6 +24,12 @@ pub fn line(l: &str) -> String {
     // "early": order ids whose host promise is settled while the script is still busy with later orders
     let early: Vec<u64> = v["early"].as_array().map(|a| a.iter().filter_map(|x| x.as_u64()).collect()).unwrap_or_default();
     let gc = v["gc"].as_bool().unwrap_or(false);
+    // "partial": at successive suspensions answer only these outstanding order ids (one list per suspension);
+    // when the plan is used up (or names nothing outstanding) the smallest outstanding id is answered
+    let partial: Option<Vec<Vec<u64>>> = v["partial"]
+        .as_array()
+        .map(|a| a.iter().map(|x| x.as_array().map(|y| y.iter().filter_map(|z| z.as_u64()).collect()).unwrap_or_default()).collect());
+    let mut partial_pos = 0usize;
 
     let (mut interp, log) = prog::new_interp();
     if gc {
@@ -73,8 +79,24 @@ pub fn line(l: &str) -> String {
                 if !outstanding.is_empty() {
                     let mut responses = Vec::new();
                     let first_outstanding = outstanding.iter().copied().min().unwrap_or(0);
-                    for id in outstanding.drain(..) {
-                        let kind = resp.get(seen_orders as usize).cloned().unwrap_or_else(|| "v".into());
+                    let answer_now: Vec<u64> = match &partial {
+                        None => outstanding.drain(..).collect(),
+                        Some(plan) => {
+                            let mut chosen: Vec<u64> = plan.get(partial_pos).map(|ids| ids.iter().copied().filter(|i| outstanding.contains(i)).collect()).unwrap_or_default();
+                            partial_pos += 1;
+                            if chosen.is_empty() {
+                                chosen.push(first_outstanding);
+                            }
+                            outstanding.retain(|i| !chosen.contains(i));
+                            chosen
+                        }
+                    };
+                    for id in answer_now {
+                        let kind = if partial.is_some() {
+                            resp.get((id as usize).saturating_sub(1)).cloned().unwrap_or_else(|| "v".into())
+                        } else {
+                            resp.get(seen_orders as usize).cloned().unwrap_or_else(|| "v".into())
+                        };
                         seen_orders += 1;
                         let result: Result<RuntimeValue, JsError> = match kind.as_str() {
                             "e" => Err(JsError::type_error(format!("boom{}", id))),
